@@ -24,6 +24,24 @@ fn main() {
                 Err(e) => println!("error: {e}"),
             }
         }
+        Some("est") => {
+            let j: serde_json::Value = serde_json::from_str(&args[1]).expect("json");
+            match cedar_policy::Policy::from_json(None, j.clone()) {
+                Ok(p) => {
+                    println!("api: from_json ok; to_cedar = {:?}", p.to_cedar());
+                    println!("api display: {p}");
+                }
+                Err(e) => println!("api error: {:?}", miette::Report::new(e)),
+            }
+            let e: Result<cedar_policy_core::est::Policy, _> = serde_json::from_value(j.clone());
+            match e {
+                Ok(p) => {
+                    println!("est parsed");
+                    println!("display: {p}");
+                }
+                Err(e) => println!("est parse error: {e}"),
+            }
+        }
         Some("solver") => {
             use cedar_policy::{Policy, Schema};
             use cedar_policy_symcc::{solver::LocalSolver, CedarSymCompiler, CompiledPolicy};
